@@ -44,6 +44,10 @@ def contents(tier: str) -> List[Tuple[int, str]]:
     out.append((65, "high"))
     out.append((5, "edge"))
     out.append((2, "failed"))
+    # the population changes between reports (the process-id table follows the modules that are connected)
+    out.append((0, "dup-refused"))
+    out.append((0, "twin-join"))
+    out.append((0, "twin-one-leaves"))
     return out
 
 
@@ -54,6 +58,8 @@ def interval_frames(tc, n: int, pattern: str, salt: int) -> List[bytes]:
     if pattern == "edge":
         half = P.MAX_MESSAGE_TYPES // 2
         return [P.mkframe(mt, b"", timecode=tc, src_mod_id=21) for mt in (half - 1, half, half + 1, P.MAX_MESSAGE_TYPES - 1, P.MAX_MESSAGE_TYPES - 2)]
+    if pattern in ("dup-refused", "twin-join", "twin-one-leaves"):
+        return []
     if pattern == "failed":
         return [P.mkframe(FAILT, b"x" * 8, timecode=tc, src_mod_id=21) for k in range(n)]
     for k in range(n):
@@ -82,6 +88,39 @@ def execute(case) -> Dict[str, Any]:
     w = mmx.World(timecode=tc, send_msg_timing=timing)
     probs: List[Dict[str, Any]] = []
     reports = {"timing": 0, "traffic": 0}
+    want_pids = dict(PIDS)  # module id -> pid of every module connected right now
+    twins: List[Any] = []
+    nconn = [10]
+
+    def population_event(pattern):
+        """connections come, are refused or go while the reporting goes on (nothing of it is forwarded traffic)"""
+        nconn[0] += 1
+        if pattern == "dup-refused":
+            # a second connection asks for an id that is in use (21) and for one outside the range: both refused and closed
+            for mid in (21, 150):
+                X = w.client(f"X{nconn[0]}{mid}", None).connect()
+                w.settle()
+                X.send(P.mkframe(P.MT_CONNECT_V2, P.p_connect_v2(0, 0, 0, mid, 4242, b"dup"), timecode=tc, src_mod_id=mid))
+                w.settle()
+                X.fin()
+                w.settle()
+        elif pattern == "twin-join":
+            for i in range(2):
+                T = w.client(f"T{nconn[0]}{i}", None).connect()
+                w.settle()
+                T.send(P.mkframe(P.MT_CONNECT_V2, P.p_connect_v2(0, 0, 1, 23, 555, b"twin"), timecode=tc, src_mod_id=23))
+                w.settle()
+                twins.append(T)
+            want_pids[23] = 555
+        elif pattern == "twin-one-leaves" and twins:
+            T = twins.pop()
+            T.send(P.mkframe(P.MT_DISCONNECT, b"", timecode=tc, src_mod_id=23))
+            w.settle()
+            T.fin()
+            w.settle()
+            if not twins:
+                want_pids.pop(23, None)
+
     try:
         L = w.client("L", 1).connect()
         Pp = w.client("P", 2).connect()
@@ -144,11 +183,11 @@ def execute(case) -> Dict[str, Any]:
                     if counts != want:
                         d = sorted(set(counts) ^ set(want))[:5] or sorted(t for t in counts if counts[t] != want.get(t))[:5]
                         probs.append({"kind": "timing-content", "differs_at": d, "got": {t: counts.get(t) for t in d}, "want": {t: want.get(t) for t in d}})
-                    for mid, pid in PIDS.items():
+                    for mid, pid in want_pids.items():
                         if pids.get(mid) != pid:
                             probs.append({"kind": "timing-pid", "mod_id": mid, "want": pid, "got": pids.get(mid)})
                     for mid in pids:
-                        if mid not in PIDS and mid != 0:
+                        if mid not in want_pids and mid != 0:
                             probs.append({"kind": "timing-pid-phantom", "mod_id": mid, "got": pids[mid]})
                     acc_t = Counter()
                     reports["timing"] += 1
@@ -181,6 +220,9 @@ def execute(case) -> Dict[str, Any]:
                     observe()
                 Pp.send(big)
                 w.settle()
+            elif pattern in ("dup-refused", "twin-join", "twin-one-leaves"):
+                population_event(pattern)
+                observe()
             elif pattern == "failed":
                 Pp.send(b"".join(frames))
                 w.step(0, nonwritable=["Q"])
